@@ -6,6 +6,7 @@
 import Z80.Model.Step
 import Z80.Model.Dasm
 import Z80.Spec.Timing
+import Z80.Spec.Undocumented
 open Z80
 
 /-! ### parsing / printing helpers -/
@@ -401,7 +402,16 @@ def handle (st : DState) (line : String) : DState × String :=
           else Spec.timing i.page i.d.instr i.tk
         " doc=" ++ b01 doc ++ " io=" ++ b01 (Spec.io i.page i.d.op) ++ " zt=" ++
           (match zt with | some n => toString n | none => "-") ++
-          " cls=" ++ (match i.d.instr with | .bit _ _ => "bit" | .unknown => "unk" | _ => "x")
+          " cls=" ++ (match i.d.instr with | .bit _ _ => "bit" | .unknown => "unk" | _ => "x") ++
+          " row=" ++ (match i.page with | .base => "base" | .cb => "CB" | .ed => "ED" | .dd => "DD" | .fd => "FD"
+                                         | .ddcb => "DDCB" | .fdcb => "FDCB") ++ ":" ++ hex2 i.d.op ++
+          -- an undocumented ED encoding the tree reports as unknown: the state an implementation that executes it
+          -- as the instruction it stands for would reach (registers, control state; T-states are not specified)
+          (match i.unknown, i.page, Spec.undocED i.d.op with
+           | true, .ed, some alt =>
+             let a1 : Arch := { exec alt 2 (preDispatch pre) with int := none }
+             " alt=" ++ ((replyState { st.cpu with arch := a1 } 0).replace " " "_")
+           | _, _, _ => "")
     ({ st with cpu := c }, replyState c cyc ++ extra)
   | ["SP16", w, v] => match parseHex w, h16 v with
     | some w, some v =>
